@@ -62,55 +62,10 @@ func freshFieldValue(ld *ssa.UnOp) (ssa.Value, bool) {
 		return nil, false
 	}
 	al, ok := fa.X.(*ssa.Alloc)
-	if !ok {
+	if !ok || !containerLike(ld.Type()) {
 		return nil, false
 	}
-	switch ld.Type().Underlying().(type) {
-	case *types.Map, *types.Slice:
-	case *types.Pointer:
-		if isBigIntPtr(ld.Type()) {
-			return nil, false
-		}
-	default:
-		return nil, false
-	}
-	var store *ssa.Store
-	for _, r := range referrersOf(al) {
-		switch u := r.(type) {
-		case *ssa.FieldAddr:
-			if u.Field != fa.Field {
-				continue
-			}
-			for _, rr := range referrersOf(u) {
-				switch w := rr.(type) {
-				case *ssa.Store:
-					if w.Addr != ssa.Value(u) || store != nil {
-						return nil, false
-					}
-					store = w
-				case *ssa.UnOp, *ssa.DebugRef:
-				default:
-					return nil, false // the field's address goes elsewhere
-				}
-			}
-		case *ssa.Return, *ssa.DebugRef:
-		case *ssa.MakeInterface:
-			for _, rr := range referrersOf(u) {
-				if _, isRet := rr.(*ssa.Return); !isRet {
-					if _, isDbg := rr.(*ssa.DebugRef); !isDbg {
-						return nil, false
-					}
-				}
-			}
-		case *ssa.Store:
-			if u.Addr == ssa.Value(al) {
-				return nil, false // assigned as a whole (a copy of something else)
-			}
-			return nil, false
-		default:
-			return nil, false // handed to a call or stored somewhere before it is complete
-		}
-	}
+	store := singleFieldStore(al, fa.Field)
 	if store == nil {
 		return nil, false
 	}
@@ -129,6 +84,92 @@ func freshFieldValue(ld *ssa.UnOp) (ssa.Value, bool) {
 		return store.Val, true
 	}
 	return nil, false
+}
+
+// containerLike: maps, slices and pointers other than *big.Int.
+func containerLike(t types.Type) bool {
+	switch t.Underlying().(type) {
+	case *types.Map, *types.Slice:
+		return true
+	case *types.Pointer:
+		return !isBigIntPtr(t)
+	}
+	return false
+}
+
+// singleFieldStore: the one store into field f of the fresh struct al, when al is only filled field by field and
+// returned (never copied, handed to a call or stored elsewhere); nil otherwise.
+func singleFieldStore(al *ssa.Alloc, f int) *ssa.Store {
+	var store *ssa.Store
+	for _, r := range referrersOf(al) {
+		switch u := r.(type) {
+		case *ssa.FieldAddr:
+			if u.Field != f {
+				continue
+			}
+			for _, rr := range referrersOf(u) {
+				switch w := rr.(type) {
+				case *ssa.Store:
+					if w.Addr != ssa.Value(u) || store != nil {
+						return nil
+					}
+					store = w
+				case *ssa.UnOp, *ssa.DebugRef:
+				default:
+					return nil // the field's address goes elsewhere
+				}
+			}
+		case *ssa.Return, *ssa.DebugRef:
+		case *ssa.MakeInterface:
+			for _, rr := range referrersOf(u) {
+				if _, isRet := rr.(*ssa.Return); !isRet {
+					if _, isDbg := rr.(*ssa.DebugRef); !isDbg {
+						return nil
+					}
+				}
+			}
+		default:
+			return nil // assigned as a whole, handed to a call or stored somewhere before it is complete
+		}
+	}
+	return store
+}
+
+// helperFieldValue: ld reads field f of the struct an unexported helper of the module made, filled once and
+// returned (`m, err := newMaterial(); ... m.key`): the value the helper put there.
+func helperFieldValue(ld *ssa.UnOp, depth int) (ssa.Value, bool) {
+	fa, ok := ld.X.(*ssa.FieldAddr)
+	if !ok || !(containerLike(ld.Type()) || isStringType(ld.Type())) {
+		return nil, false
+	}
+	if _, direct := fa.X.(*ssa.Alloc); direct {
+		return nil, false
+	}
+	al, ok := originD(fa.X, depth+1).(*ssa.Alloc)
+	if !ok || al.Parent() == ld.Parent() || !al.Heap {
+		return nil, false
+	}
+	if g := al.Parent(); g.Object() == nil || g.Object().Exported() || g.Parent() != nil {
+		return nil, false
+	}
+	if st := singleFieldStore(al, fa.Field); st != nil {
+		return st.Val, true
+	}
+	return nil, false
+}
+
+// descO: desc of what v originates from (see origin), looking through fields of helper-made structs.
+func descO(v ssa.Value) string {
+	if fa, ok := v.(*ssa.FieldAddr); ok {
+		_, _, name := ownerFieldBase(fa)
+		return descO(fa.X) + "." + name
+	}
+	if _, isLoad := v.(*ssa.UnOp); isLoad {
+		if o := origin(v); o != v && o != nil {
+			return desc(o)
+		}
+	}
+	return desc(v)
 }
 
 // virtualParamDesc: a field of a parameter object is the reference tree's plain parameter: "arg#h", or - when the
@@ -1506,6 +1547,9 @@ func originD(v ssa.Value, depth int) ssa.Value {
 			if fv, ok := freshFieldValue(x); ok {
 				return originD(fv, depth+1)
 			}
+			if fv, ok := helperFieldValue(x, depth); ok {
+				return originD(fv, depth+1)
+			}
 			if al, ok := x.X.(*ssa.Alloc); ok {
 				var val ssa.Value
 				n := 0
@@ -1911,4 +1955,9 @@ func deepVisit(P *Program, fn *ssa.Function, depth int, visit func(g *ssa.Functi
 // isBigWrapperFn: functions of the module's own big.Int wrapper package are primitives of the analysis.
 func isBigWrapperFn(g *ssa.Function) bool {
 	return g != nil && g.Pkg != nil && strings.HasSuffix(g.Pkg.Pkg.Path(), "/gabi/big")
+}
+
+func isStringType(t types.Type) bool {
+	b, ok := t.Underlying().(*types.Basic)
+	return ok && b.Info()&types.IsString != 0
 }
